@@ -62,6 +62,12 @@ CLAIMS["C15"] = dict(
   technique="table agreement (writer rows vs importer rows vs CLI list), constant/field provenance of reference strings, frozen omission-decision table, literal-shape rule against the reader grammar",
   ref="DESIGN.md §3 C15")
 
+CLAIMS["C11"] = dict(
+  text="Shape of the three candidate scans, decided from source for all inputs: every version that can become the chosen one (override: flows into Manifest.PatchRequirement; relax: into the requirement NpmRelaxer.Relax returns; update: into the requirement suggestMavenVersion returns) is committed only on paths that, since that candidate was defined, crossed the true edge of Level.Allows(L, D) with D the semver Difference between the base and that same candidate; L is Config.Get(options' UpgradeConfig, Name of the package whose base version D was measured from); the base is the loop's vulnerable version key and candidates are elements of getVersionsGreater(that key) (one comparator for sort and search) in override, the MatchVersion-witnessed index of a downward scan over the comparator-sorted list (or an already level-checked step) in relax, the parsed requirement or a MatchVersion-witnessed version in update where candidates below the base are skipped; level None is skipped before any candidate; relax.patchVulns and MavenSuggester.Suggest patch/report exactly the level-checked result with the configured UpgradeConfig. Level 'other': these are necessary conditions; ecosystem order properties, what a requirement resolves to in a universe, re-resolution effects and termination of the fixpoint loops are not decided.",
+  note="Trusted: go/ssa, deps.dev/util/semver Difference/Compare semantics, slices.SortFunc/BinarySearchFunc contracts.",
+  technique="edge-dominance of Level.Allows over every phi edge that commits a candidate (per-candidate, since its definition) + value/cell provenance of base, candidate, level and configuration",
+  ref="DESIGN.md §3 C11")
+
 CLAIMS["C06"] = dict(
   text="Effect analysis and containment rules: in all first-party code reachable from the 58 filesystem extractors and filesystem.Run the only file-system / process / database effects are the audited GetRealPath temp copy and its removal; bbolt databases are opened with ReadOnly; GetRealPath's temp directory is removed by every caller (filepath.Dir of the returned path) and on its own error exits; in unpack every MkdirAll/WriteFile/Symlink happens only after the lexical '..' rejection and a passed pathOutsideBaseDirectory(dir, fullPath) on that same path, and that check is filepath.Rel-based, rejects both '..' and '../', and treats errors as outside; layer scanning writes only Join(layer dir, cleaned name) after its '../' test, never creates links on disk, and cleans its temp directory on every error exit. Level 'other': who-may-mutate and dominance facts for all inputs; effects inside third-party code, symlink chains that become escaping through later entries, detectors and standalone extractors are not decided.",
   note="Trusted: CHA reachability over first-party code, the primitive table in c06.go, third-party open modes (go-rpmdb, saferwall/pe).",
